@@ -9,6 +9,74 @@ TB = ("Trusted: Lean 4.33 kernel; axioms propext/Classical.choice/Quot.sound onl
       "(generators, canonicalisation, oracle). The tie model<->code is regenerated facts + behavioural correspondence (a search).")
 
 CHECKS = {
+ "C13": dict(
+  text="Lean theorems about `step`/`run`, a mirror of SQLTx (one store transaction, counters, savepoints AS THE CODE DOES THEM: counters only, map by name, ROLLBACK TO "
+       "deletes the named savepoint) and Engine.execPreparedStmts (a statement error cancels the transaction), over C12's `exec`: commit_all_or_nothing (a program without "
+       "COMMIT never changes what others see), commit_publishes_pending, rollback_no_trace (ROLLBACK, failing statement, failing savepoint operation), own_writes_visible, "
+       "counts_match_applied, tx_refines_spec_partial (same outcomes and committed state as the textbook interpreter Spec for programs without ROLLBACK TO/RELEASE). "
+       "savepoint_refines_spec is FALSE of the code: witnesses savepoint_keeps_writes (K1) and second_rollback_to_fails. Tie: generated transaction programs (BEGIN, DML, "
+       "failures, SAVEPOINT/ROLLBACK TO/RELEASE, COMMIT/ROLLBACK, abandoned sessions, autocommit) through Engine.Exec with an explicit *SQLTx and ExecPreparedStmts vs the "
+       "Lean driver (per-operation outcome and counters). ORACLE (Go): reference interpreter with textbook savepoints; committed table after every COMMIT/ROLLBACK/"
+       "failure/close; in-tx view through every index = snapshot + own writes; autocommit readers never see uncommitted data; counts and generated keys; 1..4 interleaved sessions.",
+  note=TB + " Modelled rather than verified: isolation between concurrent sessions is the store's MVCC (C05) and is only exercised by the harness; the correspondence runs "
+       "single-session programs on tables without secondary indexes (the in-tx index view is finding R1); pkg/server/sessions/internal/transactions is a Go internal package "
+       "(not importable) and the PostgreSQL wire front-end is not driven. Known signatures for root causes R1, R4, R5 (K1), R6, R7, R8, R9 (known_findings.json).",
+  technique="Lean 4 proof (case analysis on the transaction interpreter, simulation against the reference interpreter, concrete witnesses by decide) + differential correspondence + reference-interpreter oracle",
+  design="7/C13"),
+ "C12": dict(
+  text="Lean theorems about `exec`, a mirror of UpsertIntoStmt/UpdateStmt/DeleteFromStmt.execAt + doUpsert (decision order, auto-increment maxPK rule, NOT NULL/CHECK/"
+       "length tests, PK existence read incl. the store's deleted-in-same-tx behaviour, UNIQUE prefix read incl. deleted entries): exec_preserves_inv_partial (PK unique, "
+       "declared lengths, auto-increment high-water mark, key bookkeeping are preserved by every successful statement), insert_enforces_not_null_partial, "
+       "exec_fail_no_effect (a failing statement cancels the tx, committed state unchanged), reachable_inv_partial (every committed state reachable by any sequence of "
+       "transactions/statements/failures/rollbacks/savepoints), uniqueness_reads_in_readset (the uniqueness decision depends only on the entries under the read prefix — "
+       "the reads the store's MVCC records; concurrency is inherited from C05). The FULL invariant is false of the code: witnesses update_sets_null_in_not_null and "
+       "unique_violated_after_delete. Tie: statement outcomes (ok/error class, affected rows) of generated histories vs the Lean driver (autocommit, explicit tx; on "
+       "indexed tables single-row statements). ORACLE (Go, model independent): after EVERY committed transaction full scans through the primary and every secondary "
+       "index: same rows through every index, PK unique, UNIQUE duplicate free, NOT NULL, lengths, CHECK, equals a textbook reference interpreter; must-fail statements "
+       "fail; failed statements / rolled back / conflicting transactions leave no trace; 1..4 interleaved sessions (deterministic) and real goroutines.",
+  note=TB + " Modelled rather than verified: the transient index entries of an open transaction (statements writing several rows of an indexed table are kept out of the "
+       "correspondence; that behaviour is finding R1), DEFAULT values, JSON, FOREIGN KEY, ALTER TABLE, implicit INTEGER->FLOAT conversion; concurrency is not in the Lean "
+       "model (MVCC of the store, C05) — the harness exercises it. Known signatures for root causes R1, R2, R3, R4, R9 (known_findings.json).",
+  technique="Lean 4 proof (invariant preservation by induction over the statement interpreter; concrete witnesses by kernel evaluation) + differential correspondence + invariant checking after every commit",
+  design="7/C12"),
+ "C11": dict(
+  text="FRAGMENT model. Lean theorems (unbounded in table size, values, predicate shape) about a mirror of the single-table SELECT path of embedded/sql "
+       "(predicate evaluation with the engine's two-valued comparisons and NULL-as-least, selectorRanges -> updateRangeFor/refineWith/extendWith incl. the "
+       "constant-on-the-left and OR-hull quirks, keyReaderSpecFrom byte windows, index entries = key(index cols)++key(pk) from C15, OFFSET/LIMIT): "
+       "range_sound_fragment (every derived range bounds every row on which the predicate is TRUE), window_sound_fragment (the row's key in ANY index lies in the "
+       "key window built for it), plan_independent_fragment (range scan = unrestricted scan of the same index, as lists, any LIMIT/OFFSET/direction), "
+       "plan_independent_perm_fragment (two indexes return permutations of the rows kept by the predicate), order_by_sorted_fragment, partition_fragment "
+       "(P / NOT P / (P) IS NULL partition a result for two-valued P), limit_offset_fragment. Tie: generated fragment queries `SELECT * FROM t USE INDEX ON (idx) WHERE p "
+       "[ORDER BY idx0 DESC] [LIMIT] [OFFSET]` are answered by the real engine and by the Lean driver on the same rows (lists compared). "
+       "Model-free METAMORPHIC ORACLE on the engine for everything else: each generated query (comparisons with constants of another numeric type / on the left, "
+       "double bounds, OR of ranges, IN, LIKE, IS NULL, NOT/AND/OR, ORDER BY 1..3 cols asc/desc, LIMIT/OFFSET, DISTINCT, GROUP BY + COUNT/SUM/MIN/MAX/AVG, HAVING, "
+       "inner/left joins, IN/EXISTS/FROM subqueries, BEFORE TX) is run as is, under every USE INDEX ON hint, on a twin table without secondary indexes kept in the same "
+       "transactions, inside the writing tx / after COMMIT / after reopen, with a 2-row sort buffer; ORDER BY sortedness, partition, COUNT(*), group totals, LIMIT slices.",
+  note=TB + " Modelled rather than verified: only the fragment is in Lean (no joins, grouping, DISTINCT, subqueries, LIKE, mixed-type constants, file sort, history, "
+       "index CHOICE — the fragment forces the index); the `inclusive` flags of typedValueSemiRange are not modelled (the scan never reads them); values are the C15 "
+       "representations; NaN and -0.0 are excluded from the theorems (C15 findings). The metamorphic oracle takes the engine's own semantics as given (two-valued "
+       "comparisons, LIMIT 0 = no limit) and checks agreement between plans only. 22 known signatures (root causes R1, R10a/b, R11, R12a/b/c, R13 in known_findings.json).",
+  technique="Lean 4 proof (lexicographic key-window lemmas on top of C15 key_order/composite_lex, list induction) + metamorphic differential testing of the real engine + correspondence on the fragment",
+  design="7/C11"),
+ "C14": dict(
+  text="Lean theorems about a model that mirrors TruncateUptoTx / appendValuesInto / DiscardUpto / readValueAt / the ExportTx entry loop statement by statement, "
+       "for an ARBITRARY store (any chunk size, MaxIOConcurrency, tx log, set of chunk files) where a transaction is only assumed to be what one "
+       "appendValuesIntoAnyVLog call produces (one vlog, ascending from some offset, empty values at offset 0; different txs anywhere = every commit schedule): "
+       "truncate_safe (every value of a committed tx >= n that was readable stays readable, whatever the truncation returns), truncate_idempotent, "
+       "truncate_monotone (n <= m: what TruncateUptoTx(n) deletes, TruncateUptoTx(m) deletes), headers_untouched + current_chunk_kept (only chunk files change, only removed, never the active one), "
+       "export_total, export_full_after_truncate (tx >= n exported in full, mutex free), export_releases_lock_partial; and witnesses of the negation for the two defects of the "
+       "current code: export_leaks_lock / export_leaks_lock_empty_value (F4: both 'partially truncated' exits keep _valBsMux, later ExportTx blocks) and "
+       "truncate_unsafe_for_inflight_writer (K6: values staged before the truncation by a tx that commits after it are deleted); empty_first_value_blocks_truncation (effectiveness gap). "
+       "Tie: real stores (concurrent committers, histories replicated in shuffled order so values land out of id order, MaxIOConcurrency 1..4, FileSize 48..1000, empty values, embedded on/off, "
+       "ascending/repeated/out-of-range cuts, reopen): the observed placement (vlog, offset, length per entry) and chunk files are fed to the driver; tombstones (from the store's own log lines), "
+       "error class, surviving chunk files, per-entry readability and ExportTx outcome incl. lock state are compared; independent oracle = recorded values, tx log/Alh/DualProof snapshots, "
+       "TryLock on _valBsMux, liveness bounds; plus pkg/database (vlog truncator with CopySQLCatalog, SQL, documents, restart).",
+  note=TB + " Modelled rather than verified: value bytes, digests and compression are not in the model (locations only); the tx log, index, AHT are represented by 'unchanged' (checked by the oracle on the real store); "
+       "Go's random map iteration order over the tombstones is modelled as list order (vlogs are independent); multiapp's LRU of open chunk files, the vlog cache (disabled in the harness) and "
+       "remote storage are not modelled; concurrency is abstracted into the arbitrary placement plus the explicit two-phase commit used in the K6 witness; the SQL/document level is oracle-only (no model). "
+       "the vlog lock manager (vLogsCond / fetchVLog / releaseVLog) is not modelled: the lost wake-up finding is oracle-only. Known findings (3 signatures) are genuine defects of /repo, see known_findings.json.",
+  technique="Lean 4 proof (fold invariants over the two walks, filter characterisation of the discard loop, pigeonhole for the early exit of the back walk; decide for the witnesses) + differential correspondence on real stores",
+  design="7/C14"),
  "C07": dict(
   text="Lean theorems over models that mirror the replication code (wire format of ExportTx/ReplicateTx with Go panics explicit; the replica store: "
        "ReplicateTx -> precommit with a supplied header, every check in the code's order -> performPrecommit, sync/mayCommit, DiscardPrecommittedTxsSince, "
